@@ -26,6 +26,8 @@ import (
 	"google.golang.org/grpc/peer"
 	"google.golang.org/grpc/status"
 	"google.golang.org/grpc/test/bufconn"
+	"google.golang.org/protobuf/proto"
+	"google.golang.org/protobuf/types/known/emptypb"
 	"google.golang.org/protobuf/types/known/wrapperspb"
 )
 
@@ -129,6 +131,8 @@ type rpcState struct {
 	hdrTarget  metadata.MD
 	trlTarget  metadata.MD
 	peerTarget peer.Peer
+	hdrTarget2, trlTarget2 metadata.MD
+	peerTarget2            peer.Peer
 	chanTarget grpctunnel.TunnelChannel
 	chanTarget2 grpctunnel.TunnelChannel
 
@@ -834,6 +838,7 @@ func (w *World) connOpts(spec TunnelSpec) ConnOpts {
 		ServerAddr:         "server.verif:443",
 		CtxValue:           nilIfEmpty(spec.CtxVal),
 		InterceptMD:        spec.IcptMD,
+		ServerOutMD:        spec.SrvOutMD,
 		// A legacy peer neither sends nor looks at the negotiate key; emulating one
 		// with a current endpoint therefore hides the key in both directions.
 		StripReqNegotiate:  cfg.ClientFC == "legacy" || cfg.ServerFC == "legacy",
@@ -1603,6 +1608,18 @@ func (w *World) callCtx(r *rpcState) (context.Context, []grpc.CallOption) {
 	if sp.PeerOpt {
 		opts = append(opts, grpc.Peer(&r.peerTarget))
 	}
+	if sp.Opt2 {
+		// the same options once more (application code plus an interceptor, say): every location is filled
+		if sp.HdrOpt {
+			opts = append(opts, grpc.Header(&r.hdrTarget2))
+		}
+		if sp.TrlOpt {
+			opts = append(opts, grpc.Trailer(&r.trlTarget2))
+		}
+		if sp.PeerOpt {
+			opts = append(opts, grpc.Peer(&r.peerTarget2))
+		}
+	}
 	if sp.ChanOpt {
 		opts = append(opts, grpctunnel.WithTunnelChannel(&r.chanTarget))
 		if sp.ChanOpt2 {
@@ -1658,8 +1675,41 @@ func (w *World) recordTerminalExtras(r *rpcState, rec *OpRec) {
 		if rec.TrailerOptNow == nil {
 			rec.TrailerOptNow = map[string][]string{}
 		}
+		w.noteOpt2(r, rec, false, true)
 	}
 	w.recordHeaderNow(r, rec)
+}
+
+// noteOpt2: with every option passed twice, the second location must hold what the first holds whenever the first is read.
+func (w *World) noteOpt2(r *rpcState, rec *OpRec, hdr, trl bool) {
+	if !r.spec.Opt2 {
+		return
+	}
+	var diff []string
+	if hdr && r.spec.HdrOpt && !mdEqual(cloneMD(r.hdrTarget), cloneMD(r.hdrTarget2)) {
+		diff = append(diff, fmt.Sprintf("grpc.Header: first location %s, second %s", mdString(cloneMD(r.hdrTarget)), mdString(cloneMD(r.hdrTarget2))))
+	}
+	if trl && r.spec.TrlOpt && !mdEqual(cloneMD(r.trlTarget), cloneMD(r.trlTarget2)) {
+		diff = append(diff, fmt.Sprintf("grpc.Trailer: first location %s, second %s", mdString(cloneMD(r.trlTarget)), mdString(cloneMD(r.trlTarget2))))
+	}
+	if r.spec.PeerOpt {
+		a, b := "<none>", "<none>"
+		if r.peerTarget.Addr != nil {
+			a = r.peerTarget.Addr.String()
+		}
+		if r.peerTarget2.Addr != nil {
+			b = r.peerTarget2.Addr.String()
+		}
+		if a != b {
+			diff = append(diff, fmt.Sprintf("grpc.Peer: first location %s, second %s", a, b))
+		}
+	}
+	if len(diff) > 0 {
+		if rec.Extra == nil {
+			rec.Extra = map[string]string{}
+		}
+		rec.Extra["opt2_differs"] = strings.Join(diff, "; ")
+	}
 }
 
 func (w *World) recordHeaderNow(r *rpcState, rec *OpRec) {
@@ -1668,6 +1718,7 @@ func (w *World) recordHeaderNow(r *rpcState, rec *OpRec) {
 		if rec.HeaderOptNow == nil {
 			rec.HeaderOptNow = map[string][]string{}
 		}
+		w.noteOpt2(r, rec, true, false)
 	}
 	if r.stream != nil {
 		// Header() must not block now: run it in a helper goroutine and only take a result that is already there
@@ -1944,8 +1995,22 @@ func (w *World) opRecv(r *rpcState, i int, rec *OpRec) {
 		}
 		m = r.reuseCli
 	}
+	var relay emptypb.Empty
 	w.appCall(rec, func() {
-		err := r.stream.RecvMsg(m)
+		var err error
+		if r.spec.RecvUnknown {
+			// a receiver whose message type has no field 1 (a relay, a recorder, an older schema): what it is handed must
+			// still be the message - the bytes live on as unknown fields and re-encode to what was sent
+			err = r.stream.RecvMsg(&relay)
+			if err == nil {
+				m = &wrapperspb.BytesValue{}
+				if uerr := proto.Unmarshal(relay.ProtoReflect().GetUnknown(), m); uerr != nil {
+					m.Value = []byte("unknown fields of the received message do not parse: " + uerr.Error())
+				}
+			}
+		} else {
+			err = r.stream.RecvMsg(m)
+		}
 		setErr(rec, err)
 		if err == nil {
 			obs := classifyPayload(m.Value, r.idx, 'p', i, r.spec.Resp)
@@ -1978,6 +2043,7 @@ func (w *World) opHeader(r *rpcState, rec *OpRec) {
 		if r.spec.HdrOpt && err == nil {
 			// (a Header() that failed, e.g. because the RPC was cancelled, is not a completion signal for the target)
 			rec.HeaderOptNow = cloneMD(r.hdrTarget)
+			w.noteOpt2(r, rec, true, false)
 		}
 	})
 }
@@ -2014,6 +2080,7 @@ func (w *World) opInvoke(r *rpcState, rec *OpRec) {
 				rec.HeaderOptNow = map[string][]string{}
 			}
 		}
+		w.noteOpt2(r, rec, true, true)
 		w.recordCallIdentity(r, rec, nil)
 	})
 	w.mu.Lock()
@@ -2425,7 +2492,19 @@ func streamHandlerFor(shape string) grpc.StreamHandler {
 						}
 						m = r.reuseSrv
 					}
-					err := ss.RecvMsg(m)
+					var err error
+					if sp.RecvUnknown {
+						var relay emptypb.Empty
+						err = ss.RecvMsg(&relay)
+						if err == nil {
+							m = &wrapperspb.BytesValue{}
+							if uerr := proto.Unmarshal(relay.ProtoReflect().GetUnknown(), m); uerr != nil {
+								m.Value = []byte("unknown fields of the received message do not parse: " + uerr.Error())
+							}
+						}
+					} else {
+						err = ss.RecvMsg(m)
+					}
 					setErr(rec, err)
 					if err == nil {
 						obs := classifyPayload(m.Value, r.idx, 'q', i, sp.Req)
@@ -2578,6 +2657,14 @@ func (w *World) enabledActions() (acts []action, forced *action) {
 	for i, ev := range w.c.Events {
 		if w.eventsDone[i] {
 			continue
+		}
+		if ev.AfterEv > 0 {
+			if p := ev.AfterEv - 1; p >= i || !w.eventsDone[p] || step < w.tr.Events[p].Fired+ev.After {
+				continue
+			}
+			a := action{kind: "event", event: i}
+			w.mu.Unlock()
+			return nil, &a
 		}
 		if (!ev.AtStep && delivered >= ev.After) || (ev.AtStep && step >= ev.After) {
 			a := action{kind: "event", event: i}
